@@ -317,8 +317,8 @@ class PythonParserGenerator(IndentPrintMixin, NodeWalker):
                     ignorecase={grammar.config.ignorecase or False},
                     namechars={grammar.config.namechars or ""!r},
                     parseinfo={grammar.config.parseinfo},
-                    comments={regexpp(grammar.config.comments)},
-                    eol_comments={regexpp(grammar.config.eol_comments)},
+                    comments={regexpp(grammar.config.comments) if grammar.config.comments else None},
+                    eol_comments={regexpp(grammar.config.eol_comments) if grammar.config.eol_comments else None},
                     keywords=KEYWORDS,
                     start={start!r},
                 )
